@@ -1,9 +1,13 @@
 // Package c03 drives non-body parameter binding of the untyped API for property C03.
 //
 // case  = one parameter declaration + a list of requests (each: the (key, text) pairs sent in the
-//         parameter's location, or the path segment).
+//
+//	parameter's location, or the path segment).
+//
 // event = one per request: what the handler received for the parameter (value abstracted to
-//         digits / bytes, dynamic type) or the rejection (status, message), recovered panics.
+//
+//	digits / bytes, dynamic type) or the rejection (status, message), recovered panics.
+//
 // Nothing is decided here; ParamBind.tla is the oracle.
 package c03
 
